@@ -1,7 +1,7 @@
 """Worlds for the Clean family (C07-C10): a directory prepared with fsput (entries of the tests
 that will run, stale entries at any position, stale files, decoys), one process that runs the
 tests `count` times, then Clean; plus the oracles, computed from the world description."""
-import re
+import re, posixpath
 import core
 from core import World, parse_fs, Line, hx
 from gen import Gen, mode_line, cfg_line
@@ -18,12 +18,47 @@ def natural_key(s):
     return [(0, int(p)) if p.isdigit() else (1, p) for p in parts]
 
 
+def nat_less(a, b):
+    """port of maruel/natural.Less (v1.1.1)"""
+    def digits(s):
+        i = 0
+        while i < len(s) and 48 <= s[i] <= 57:
+            i += 1
+        return i
+    while True:
+        m = min(len(a), len(b))
+        p = 0
+        while p < m and not (48 <= a[p] <= 57 or 48 <= b[p] <= 57 or a[p] != b[p]):
+            p += 1
+        a, b = a[p:], b[p:]
+        if len(a) == 0:
+            return len(b) != 0
+        ia, ib = digits(a), digits(b)
+        if ia > 0 and ib > 0:
+            an, bn = int(a[:ia]), int(b[:ib])
+            if an < 2 ** 64 and bn < 2 ** 64:
+                if an != bn:
+                    return an < bn
+                if ia != len(a) and ib != len(b):
+                    a, b = a[ia:], b[ib:]
+                    continue
+        return a < b
+
+
+def nat_total(ids):
+    """is the comparator used by Clean a strict total order on these ids (pairwise comparable)?"""
+    ids = list(set(ids))
+    return all(nat_less(x, y) != nat_less(y, x) for i, x in enumerate(ids) for y in ids[i + 1:])
+
+
 def make_spec(g, allow=()):
     r = g.r
     names = g.names(r.randint(1, 4), allow)
     stale_names = [n for n in [b'TestGone', b'TestGone/sub', b'TestA/x/old', b'TestOld1', b'TestOld10', b'TestB/gone'] if n not in names]
     r.shuffle(stale_names)
-    files = [('snaps', None, None), ('snaps', 'custom', None), ('other/dir', None, '.txt')]
+    # the Dir option as the user wrote it: not always in shortest form
+    sd = r.choice(['snaps', 'snaps', 'snaps/', './snaps', 'snaps/.', 'x/../snaps'])
+    files = [(sd, None, None), (r.choice(['snaps', sd]), 'custom', None), (r.choice(['other/dir', 'other//dir/']), None, '.txt')]
     nfiles = r.choice([1, 1, 2, 3])
     cfgs = [cfg_line(i + 1, *files[i]) for i in range(nfiles)]
     tests = []
@@ -47,6 +82,17 @@ def make_spec(g, allow=()):
             cfgno = calls[0][0]
             nn = sum(1 for c, _ in calls if c == cfgno)
             stale.append((cfgno, n + b' - ' + str(r.choice([nn + 1, 2 * nn, nn + 5, 3 * nn])).encode(), g.body((), ())))
+    # a test whose snapshots moved to another file: its old slots, with the same ids, are stale in
+    # the file it no longer addresses (state shared between files would resurrect or corrupt them)
+    if nfiles > 1:
+        for n, calls in tests:
+            if calls and r.random() < 0.5:
+                used = set(c for c, _ in calls)
+                others = [c for c in range(1, nfiles + 1) if c not in used]
+                if others:
+                    cfgno = r.choice(others)
+                    for k in range(1, r.randint(1, 2) + 1):
+                        stale.append((cfgno, n + b' - ' + str(k).encode(), g.body((), ())))
     return dict(cfgs=cfgs, nfiles=nfiles, tests=tests, stale=stale,
                 count=r.choice([1, 1, 2, 3]), shuffle=r.randrange(1 << 30),
                 stale_files=r.sample(['old_test.snap', 'x.snapshot', 'gone_1.snap', 'a.snap.json'], r.choice([0, 0, 1, 2])),
@@ -57,7 +103,7 @@ def make_spec(g, allow=()):
 
 def suffix_of(cfgline):
     t = cfgline.split()
-    d = core.unhx(t[2]).decode()
+    d = posixpath.normpath(core.unhx(t[2]).decode())
     fn = core.unhx(t[3]).decode() if t[3] != '-' else 'zz_verif_harness_test'
     ext = core.unhx(t[4]).decode() if t[4] != '-' else ''
     return '%s/%s.snap%s' % (d, fn, ext)
@@ -104,6 +150,9 @@ def render(tag, spec, oracles):
     for sf in spec['stale_files']:
         if dirs:
             w.add('fsput %s %s' % (hx(dirs[0] + '/' + sf), hx(frame(b'TestElsewhere - 1', b'z'))))
+            if sf.endswith('.snap') and spec['shuffle'] % 2:
+                # the test file the snapshots came from still exists but no longer declares any function
+                w.add('fsput %s %s' % (hx(posixpath.normpath(dirs[0] + '/../' + sf[:-5] + '.go')), hx('package x\n\nvar fixtures = []string{"a"}\n')))
     if spec['decoys'] and dirs:
         w.add('fsput %s %s' % (hx(dirs[0] + '/notes.txt'), hx(b'keep me')))
         w.add('fsput %s %s' % (hx(dirs[0] + '/sub/inner.snap'), hx(frame(b'TestInner - 1', b'i'))))
@@ -234,13 +283,16 @@ def o_rewrite_preserves(w):
         if ea is None:
             return 'file %r not well formed after Clean' % p
         want = [e for e in eb if not (dele and e[0] in [t for t, _, live in entries if not live])]
+        if srt and not nat_total([e[0] for e in eb]):
+            continue        # the property only speaks about ids on which the natural order is total
         if sorted(ea) != sorted(want):
             return 'entries of %r changed: before %r after %r' % (p, [e[0] for e in eb], [e[0] for e in ea])
         if len(set(e[0] for e in ea)) != len(ea):
             return 'duplicate entries after Clean'
-        if srt:
+        if srt and nat_total([e[0] for e in ea]):
             ids = [e[0] for e in ea]
-            if ids != sorted(ids, key=natural_key):
+            import functools
+            if ids != sorted(ids, key=functools.cmp_to_key(lambda x, y: -1 if nat_less(x, y) else (1 if nat_less(y, x) else 0))):
                 return 'not in natural order after sorting: %r' % ids
         elif [e[0] for e in ea] != [e[0] for e in want]:
             return 'order changed without sorting: %r -> %r' % ([e[0] for e in want], [e[0] for e in ea])
